@@ -141,11 +141,11 @@ RandT(i) == LET n == Pick(<<2, 3, 3, 4>>, i, 1)
                      RSym(i, n, <<-6, -4, -3, -2, -1, 0, 0, 1, 2, 3, 4, 6>>, 100),
                      [j \in 1..n |-> <<Pick(Lows4, i, 20 + j), Pick(Highs4, i, 30 + j)>>],
                      Pick(<<2, 4, 6, 8, 11, 14, 16, 24>>, i, 2), 0, TRUE)
-RandG(i) == LET n == Pick(<<1, 1, 2>>, i, 1)
-            IN InstX(n, [j \in 1..n |-> Pick(<<-8, -2, -1, 0, 1, 2, 8>>, i, 10 + j)],
-                     RSym(i, n, <<-8, -4, -1, 0, 1, 4>>, 100),
-                     [j \in 1..n |-> <<Pick(<<-Inf, -40, -6>>, i, 20 + j), Pick(<<6, 40, Inf>>, i, 30 + j)>>],
-                     Pick(<<1, 2, 3, 5, 6, 7, 9, 12>>, i, 2), Pick(<<-8, -4, -1, 1, 4, 8>>, i, 3), TRUE)
+RandG(i) == LET n == Pick(<<1, 1, 2, 2>>, i, 1)
+            IN InstX(n, [j \in 1..n |-> Pick(<<-24, -8, -2, -1, 0, 0, 1, 2, 8, 24>>, i, 10 + j)],
+                     RSym(i, n, <<-8, -4, -1, 0, 0, 1, 4, 16, 48>>, 100),
+                     [j \in 1..n |-> <<Pick(<<-Inf, -40, -6, -4, 0, 0>>, i, 20 + j), Pick(<<0, 4, 6, 20, 40, Inf>>, i, 30 + j)>>],
+                     Pick(<<1, 2, 3, 4, 5, 6, 7, 9, 12>>, i, 2), Pick(<<-8, -4, -1, 1, 4, 8>>, i, 3), TRUE)
 RandN(i) == LET n == 2
                 m == Pick(<<1, 2, 2>>, i, 1)
                 R7 == <<-7, -5, -4, -3, -2, -1, 0, 1, 2, 3, 4, 5, 7>>
@@ -194,7 +194,7 @@ UniverseP(id) ==
                         g \in Vecs(2, {-2, -1, 1}), bp \in Vecs(2, {"box1", "half", "wide", "inf", "lonear"}),
                         hk \in HKinds, d \in {8, 16}, sc \in {0, 20}, rows \in {"poly", "wedge"}}
     [] id = "rndt" -> {RandT(i) : i \in 1..24000}
-    [] id = "rndg" -> {RandG(i) : i \in 1..6000}
+    [] id = "rndg" -> {RandG(i) : i \in 1..16000}
     [] id = "rndn" -> {RandN(i) : i \in 1..40000}
     [] id = "nrm2" -> {InstN(2, bp, d, 0, tcg, <<r1, r2>>, <<b1, b2>>, <<e>>, <<be>>) :
                         bp \in {<<"inf", "inf">>, <<"wide", "wide">>, <<"lo0", "inf">>},
